@@ -281,7 +281,7 @@ Lemma add_vote_mono peer v s : hrs_le s (add_vote valid vals proposer mkblock cf
 Proof.
   unfold add_vote.
   destruct (_ && vtype_eqb _ _).
-  { destruct (negb _); [apply hrs_refl|]. destruct (last_commit s) as [[lr vs]|]; [|apply hrs_refl].
+  { destruct (negb _); [apply hrs_refl|]. destruct (last_commit s) as [[[lh lr] vs]|]; [|apply hrs_refl].
     destruct (_ || _); [apply hrs_refl|]. destruct (vs_add _ _ _ _) as [vs' added].
     destruct (negb added); [apply hrs_refl|].
     destruct (_ && _); [|apply hrs_eq_le; repeat split].
